@@ -39,15 +39,16 @@ func zzQ2() int64 {
 //
 //verif:property C02
 //verif:expect-reach end
-//verif:bound abstract prime-order group of order 257 (quick) / 65537 (thorough) in place of the curve; d in [1,q-2]; plaintext length 1 (quick) / each of 1..33 (thorough), content symbolic; both orders; SM3 and the KDF arbitrary functions of their inputs; nonce bytes symbolic
+//verif:bound abstract prime-order group of order 257 (quick) / 65537 (thorough) in place of the curve; d in [1,q-2]; thorough tier only (about 15 min and may be inconclusive: symbolic-length coordinate strings make ~3600 solver queries); plaintext length 1 or 2, content symbolic; both orders; SM3 and the KDF arbitrary functions of their inputs; nonce bytes symbolic
 //verif:outside the real curve arithmetic (C03); ASN.1 form (reflection-driven encoding/asn1)
 //verif:stub-symbolic github.com/tjfoc/gmsm/sm3.Sm3Sum zzStubSm3Sum02
 //verif:stub-symbolic github.com/tjfoc/gmsm/sm2.kdf zzStubKdf02
 //verif:unwind 200
+//verif:thorough-only
 func zzH_c02_roundtrip() {
 	maxL := 1
 	if vTier() == 1 {
-		maxL = 33
+		maxL = 2
 	}
 	L := 1 + vChoice("L", maxL)
 	mode := vChoice("mode", 2)
